@@ -126,7 +126,7 @@ def evaluate(ctx, cases, impl, acc):
             d = max(abs(a - b) for a, b in pairs) / scale
             acc["worst_inactive_rel"] = max(acc["worst_inactive_rel"], d)
             if d > INACTIVE_TOL:
-                ctx.report("inactive:differs", dict(describe(prob), max_rel_diff=d),
+                ctx.report("inactive:differs:%s" % ("1d" if int(pw[1]) == 1 else "nd"), dict(describe(prob), max_rel_diff=d),
                            "constraint inactive (unconstrained fit non-negative and non-decreasing with margin) but the monotonic fit differs by %.3e relative" % d)
 
 
